@@ -176,6 +176,40 @@ def run(ctx):
                               {"x": x.tolist(), "changepoints": cp, "stat": nm, "stat_lower": lo, "stat_upper": hi, "impl": [list(t) for t in impl]},
                               {"what": "flagged-segments", "stat": nm})
 
+    # ---- order statistics of NON-DYADIC data with bounds taken from the same values (a statistic exactly ON a bound is inside: the test is strict) and
+    # ---- one-sided ranges (an infinite bound): decided by the two comparisons of the definition, nothing else
+    vals_nd = [0.2, -1.0, 0.7, 0.1, 1.3, -0.3, 2.6]
+    for i in range(ctx.n(60, 500)):
+        n = rng.randint(2, 25)
+        k = rng.choice([0, 1, 2, 3, 4])
+        cp = sorted(rng.sample(range(1, n), min(k, n - 1)))
+        x = np.asarray([rng.choice(vals_nd) for _ in range(n)])
+        lo, hi = sorted([rng.choice(vals_nd), rng.choice(vals_nd)])
+        r = rng.random()
+        if r < 0.2:
+            lo = -np.inf
+        elif r < 0.4:
+            hi = np.inf
+        nm, fn = rng.choice([("max", np.max), ("min", np.min), ("first", lambda v: v[0])])
+        X = pd.DataFrame(x, columns=["v"])
+        try:
+            out = StatThresholdAnomaliser(StubCD(cp), fn, lo, hi).fit(X).predict(X)
+        except Exception as ex:
+            ctx.violation(f"StatThresholdAnomaliser(stat={nm}, bounds ({lo}, {hi})) raised {type(ex).__name__}: {str(ex)[:100]}",
+                          {"x": x.tolist(), "changepoints": cp, "stat": nm, "stat_lower": float(lo), "stat_upper": float(hi)}, {"what": "exception", "stat": nm})
+            continue
+        impl = [(int(l), int(r_)) for l, r_ in zip(out["ilocs"].array.left, out["ilocs"].array.right)]
+        bounds = [0] + cp + [n]
+        segs = list(zip(bounds[:-1], bounds[1:]))
+        svals = [float(fn(x[s_:e_])) for s_, e_ in segs]
+        want = [se for se, v in zip(segs, svals) if v < lo or v > hi]
+        ctx.case({"nondyadic": nm, "x": x.tolist(), "cp": cp, "lo": float(lo), "hi": float(hi)}, nontrivial=len(want) > 0)
+        ctx.count("bound_kind", "one-sided" if np.isinf(lo) or np.isinf(hi) else ("tie-on-bound" if any(v in (lo, hi) for v in svals) else "two-sided"))
+        if impl != want:
+            ctx.violation(f"StatThresholdAnomaliser(stat={nm}): reported {impl}, the segments whose statistic is < {lo} or > {hi} are {want} (changepoints {cp}, statistics {svals})",
+                          {"x": x.tolist(), "changepoints": cp, "stat": nm, "stat_lower": float(lo), "stat_upper": float(hi), "impl": [list(t) for t in impl]},
+                          {"what": "flagged-segments", "stat": nm})
+
     # ---- histories: fit, reconfigure the user's detector object, fit again: the second fit must clone the CURRENT configuration ----
     for i in range(ctx.n(20, 150)):
         n = rng.randint(30, 50)
